@@ -35,6 +35,8 @@ structure DState where
   hasL1 : List Bool := []
   /-- the session storage (`session_memory_storage`) behind every server -/
   sess : List SessStore := []
+  /-- judge: the ideal session store of every server -/
+  sessSp : List Spec.SessSpec := []
 
 def tailStr (cl : Cluster) : String :=
   let sv := ";".intercalate (cl.servers.map fun s => s!"{s.size} {s.trigCount}")
@@ -254,15 +256,81 @@ def parseOut (res : List String) : Option Out :=
     | some k, some t => some (.stats k t) | _, _ => none
   | _ => none
 
+/-- judge of a session frame sent to server `i` (valid frames only: 32-byte sid): the reply of the real server,
+decoded as `tcp_storage::load` decodes it, must be what the ideal session store expects -/
+def judgeSessRaw (st : DState) (i : Nat) (now : Time) (fr : Bytes) (res : List String) : DState × String :=
+  let (h, data) := frameOfBytes fr
+  let opc := h.get Gen.wOpcode
+  let m := st.sessSp.getD i (fun _ => none)
+  let setM (m' : Spec.SessSpec) : DState := { st with sessSp := if i < st.sessSp.length then st.sessSp.set i m' else st.sessSp }
+  match res with
+  | [rhex] =>
+    match parseHex rhex with
+    | some rb =>
+      if !frameOk rb then (st, "0 reply-is-not-a-frame") else
+      let (rh, rdata) := frameOfBytes rb
+      if opc = Gen.opSessionSave then
+        if data.length < 32 then (st, "1") else
+        (setM (Spec.sessSpecSave m (data.take 32) (ofI64 (h.get64 Gen.wSessionSaveTimeout)) (data.drop 32)),
+          if rh.get Gen.wOpcode = Gen.opDone then "1" else "0 session-save-not-acknowledged")
+      else if opc = Gen.opSessionRemove then
+        if data.length ≠ 32 then (st, "1") else (setM (Spec.sessSpecRemove m data), "1")
+      else if opc = Gen.opSessionLoad then
+        if data.length ≠ 32 then (st, "1") else
+        (st, if cliDecodeSessLoad rh rdata == Spec.sessExpect m now data then "1" else "0 session-load-returns-wrong-record")
+      else (st, "1")
+    | none => (st, "0 reply-unparsable")
+  | _ => (st, "0 reply-unparsable")
+
+/-- judge of what a real `tcp_storage` put on the socket: parsed as the server parses it, the request must carry
+exactly the arguments of the call -/
+def judgeSessCw (w : List String) (res : List String) : String :=
+  if !(w.head? == some "ssave" || w.head? == some "sload" || w.head? == some "sremove") then "1" else
+  match res.head? >>= parseHex with
+  | none => "0 request-unparsable"
+  | some rq =>
+    if !frameOk rq then "0 request-is-not-a-frame" else
+    let (h, data) := frameOfBytes rq
+    match w with
+    | ["ssave", sid, to, v, _] =>
+      match parseHex sid, to.toInt?, Proto.parseVal v with
+      | some sid, some to, some v =>
+        if h.get Gen.wOpcode = Gen.opSessionSave && data == sid ++ v && ofI64 (h.get64 Gen.wSessionSaveTimeout) == to then "1"
+        else "0 session-save-request-differs-from-the-call"
+      | _, _, _ => "0 bad-case"
+    | ["sload", sid, rep] =>
+      match parseHex sid, parseHex rep with
+      | some sid, some rep =>
+        let (rh, rd) := frameOfBytes rep
+        let want := match cliDecodeSessLoad rh rd with
+          | some (t, v) => ["some", toString t, toHex v]
+          | none => ["none"]
+        if h.get Gen.wOpcode = Gen.opSessionLoad && data == sid && res.drop 1 == want then "1"
+        else "0 session-load-differs"
+      | _, _ => "0 bad-case"
+    | ["sremove", sid, _] =>
+      match parseHex sid with
+      | some sid => if h.get Gen.wOpcode = Gen.opSessionRemove && data == sid then "1" else "0 session-remove-request-differs"
+      | none => "0 bad-case"
+    | _ => "1"
+
 def judgeLine (st : DState) (w : List String) : DState × String :=
   let (implw, casew) := splitAt ";" w
   let (res, _) := splitAt "|" implw
   match casew with
+  | ["raw", i, now, fr] | ["rawseg", i, now, _, fr] =>
+    match i.toNat?, now.toInt?, parseHex fr with
+    | some i, some now, some fr => if frameOk fr then judgeSessRaw st i now fr res else (st, "1")
+    | _, _, _ => (st, "1")
+  | "cw" :: rest => (st, judgeSessCw rest res)
+  | "cws" :: _ :: rest => (st, judgeSessCw rest res)
+  | ["layout"] | ["hash", _, _] => (st, "1")
   | ["reset"] => ({ st with sp := C07.Spec.empty, ev := fun _ => [] }, if res == ["ok"] then "1" else "0 reset-answer")
   | ["cfg", sl, l1] =>
     match parseLimits sl, parseL1s l1 with
     | some sl, some l1 =>
-      ({ st with sp := C07.Spec.empty, mayEvict := sl.any (· > 0), ev := fun _ => [], hasL1 := l1.map (·.isSome) },
+      ({ st with sp := C07.Spec.empty, mayEvict := sl.any (· > 0), ev := fun _ => [], hasL1 := l1.map (·.isSome),
+                 sessSp := sl.map fun _ => (fun _ => none) },
         if res == ["ok"] then "1" else "0 cfg-answer")
     | _, _ => (st, "0 bad-case")
   | _ =>
